@@ -270,19 +270,23 @@ void body(V::Ctx &ctx)
     const std::vector<std::string> one = fieldValuesUpTo(items, 1), two = fieldValuesUpTo(items, 2), three = fieldValuesUpTo(items, 3);
     // one field: a single value or a list of up to 3
     for (const auto &a : three) runCase("1:" + V::esc(a), {a});
-    // two fields, each a single value or a list of 2
-    for (const auto &a : two)
-        for (const auto &b : two) runCase("2:" + V::esc(a) + "|" + V::esc(b), {a, b});
-    // thorough: a list of 3 (base grid) followed by a field of up to 2
-    if (!ctx.quick()) {
-        const std::vector<std::string> twoBase = fieldValuesUpTo(ItemsQuick, 2), threeBase = fieldValuesUpTo(ItemsQuick, 3);
-        for (size_t i = twoBase.size(); i < threeBase.size(); ++i)
-            for (const auto &b : twoBase) runCase("2:" + V::esc(threeBase[i]) + "|" + V::esc(b), {threeBase[i], b});
-    }
     // three fields of single values
     for (const auto &a : one)
         for (const auto &b : one)
             for (const auto &c : one) runCase("3:" + V::esc(a) + "|" + V::esc(b) + "|" + V::esc(c), {a, b, c});
+    // two fields, each a single value or a list of 2
+    for (const auto &a : two)
+        for (const auto &b : two) runCase("2:" + V::esc(a) + "|" + V::esc(b), {a, b});
+    // thorough: a ","-separated list of 3 (base grid) followed by a field of up to 2
+    if (!ctx.quick()) {
+        const std::vector<std::string> twoBase = fieldValuesUpTo(ItemsQuick, 2);
+        for (const auto &a : ItemsQuick)
+            for (const auto &b : ItemsQuick)
+                for (const auto &c : ItemsQuick) {
+                    const std::string list = a + "," + b + "," + c;
+                    for (const auto &d : twoBase) runCase("2:" + V::esc(list) + "|" + V::esc(d), {list, d});
+                }
+    }
 
     V::count("parse_calls", nParse);
     V::count("length_taken", nTaken);
